@@ -12,6 +12,7 @@ func init() {
 			c.WatermarkConversions("C01", s, "att")
 			c.RecordBeforeApprove("C01", s, "att")
 			c.EntryAlignment("C01", s, "att")
+			c.StateStoreDiscipline("C01", s, "att")
 			c.RulerLocking("C01")
 			c.StoreCommit("C03", s)
 		},
